@@ -3,7 +3,7 @@ import json, os, re
 import vlib
 
 PROP = "C05"
-CFG = ('SPECIFICATION Spec\nCONSTANTS Names = {"f", "g", "h", "k", "x", "y", "z"}\n MaxDepth = 12\n'
+CFG = ('SPECIFICATION Spec\nCONSTANTS Names = {"f", "g", "h", "k", "x", "y", "z", "a"}\n MaxDepth = 12\n'
        "INVARIANT Portable\nINVARIANT ReEmitStable\nINVARIANT Emit\nCHECK_DEADLOCK FALSE\n")
 VIA_BODY = re.compile(r"=> [^()]*\b(via|into|where)\b")
 
